@@ -20,6 +20,7 @@ RULE = (
     "percent-encoded ASCII without javascript:/vbscript:/file:/data:(non-image) scheme when read as a browser does; a template "
     "that yields no link must render exactly as it does with the link-producing rules disabled (left as literal text). "
     "Non-trivial = case in which a URL was emitted or a destination was rejected; distinct by (template, destination, conf id)."
+    " Also: a definition of an already defined label with a rejected destination must render like the same two definitions in the other order (left as literal text)."
 )
 ASSUMPTIONS = [
     "browser reading of a scheme: strip leading code points <= U+0020, delete tab/CR/LF, compare case-insensitively",
